@@ -102,6 +102,13 @@ def enc_rule(repo, res, rule="ENC", tier="quick"):
             sh = A.show(p)
             good = bool(re.fullmatch(rf"{ENCODER}\(param#0\(\w+\)\)", sh))
             why = f"\"{{{sh}}}\""
+            # ... and nothing else happens to the encoded text on the way (no truncation, no branch: clipping an escaped string can cut
+            # an escape pair in two and leave the quote open)
+            ctrl = [x["k"] for x in A.walk(w.body) if x["k"] in ("If", "While", "Loop", "ForLoop", "Match", "Return")]
+            muts = [x["method"] for x in A.walk(w.body) if x["k"] == "MethodCall" and x["method"] in ("truncate", "push", "push_str", "pop", "insert", "insert_str", "remove", "replace_range", "clear", "drain", "retain", "split_off", "get", "chars", "bytes")]
+            if good and (ctrl or muts):
+                good = False
+                why += f" but the wrapper also contains {sorted(set(ctrl + muts))}"
     res.check(good, rule, f"{rule}:{w.qname}", f"quoting wrapper is {why}" + ("" if good else f": must be one pair of quotes around {ENCODER}(its parameter)"), w.loc())
 
 
@@ -213,6 +220,15 @@ def nodeid_rule(repo, res, ty, rule="NODEID"):
                 s_auto = automaton_of_state(st, dfa_param)
                 res.check(p_auto == s_auto and p_auto != "?", rule, key + ":scope", f"prefix {pt[:40]} names the {p_auto} automaton, state {st[:70]} belongs to the {s_auto} automaton" + ("" if p_auto == s_auto else ": the node id mixes two automata (an edge would point at a node of the wrong cluster)"), loc)
     res.floor(rule, n, 6)
+    # the sets of states the dumper works with hold RAW state numbers (as the automaton has them): a value that already carries the
+    # array base must not be used to look into / edit them (in a 1-based shell it names the next state)
+    for c in A.walk(fn.body):
+        if c["k"] == "MethodCall" and c["method"] in ("remove", "contains", "insert") and len(c["args"]) == 1:
+            rp = A.show(A.resolve(c["recv"], envs.get(id(c))))
+            if "accepting_states" in rp or "get_all_states" in rp:
+                t = ty.of(c["args"][0], envs.get(id(c)))
+                okk = not t.startswith("Off<")
+                res.check(okk, rule, f"{rule}:{fn.qname}:set-{c['method']}:raw-state", f"`{RE.hole_text(repo, fn, c['args'][0])}` : {t} used with .{c['method']} on a set of raw states" + ("" if okk else ": the array base is already added, the wrong state is addressed"), f"{fn.file}:{c['l']}")
 
 
 def cluster_rule(repo, res, ty, rule="CLUSTERID"):
